@@ -787,7 +787,7 @@ class BGP(protocol.Protocol):
 
     def update_receive_verion(self, attr, nlri, withdraw):
         if 14 in attr:
-            if attr[14]['afi_safi'] == [1, 133]:
+            if list(attr[14]['afi_safi']) == [1, 133]:
                 LOG.info("recieve flowspec send")
                 for prefix in attr[14]['nlri']:
                     value = copy.deepcopy(attr)
@@ -810,9 +810,9 @@ class BGP(protocol.Protocol):
                         else:
                             self.receive_version['flowspec'] += 1
                             self.flowspec_receive_dict[str(key)] = value
-            elif attr[14]['afi_safi'] == [1, 73]:
+            elif list(attr[14]['afi_safi']) == [1, 73]:
                 LOG.info('recieve sr send')
-            elif attr[14]['afi_safi'] == [1, 128]:
+            elif list(attr[14]['afi_safi']) == [1, 128]:
                 LOG.info("receive send mpls_vpn")
                 for prefix in attr[14]['nlri']:
                     value = copy.deepcopy(attr)
@@ -837,7 +837,7 @@ class BGP(protocol.Protocol):
                             self.mpls_vpn_receive_dict[str(key)] = value
         # receive flowspec sr mpls withdraw
         if 15 in attr:
-            if attr[15]['afi_safi'] == [1, 133]:
+            if list(attr[15]['afi_safi']) == [1, 133]:
                 LOG.info("recieve flowspec withdraw")
                 for prefix in attr[15]['withdraw']:
                     key = "{"
@@ -853,9 +853,9 @@ class BGP(protocol.Protocol):
                         del self.flowspec_receive_dict[str(key)]
                     else:
                         LOG.info("Do not have %s in receive flowspec dict" % prefix)
-            elif attr[15]['afi_safi'] == [1, 73]:
+            elif list(attr[15]['afi_safi']) == [1, 73]:
                 LOG.info('recieve sr withdraw')
-            elif attr[15]['afi_safi'] == [1, 128]:
+            elif list(attr[15]['afi_safi']) == [1, 128]:
                 LOG.info("recieve withdraw mpls_vpn")
                 for prefix in attr[15]['withdraw']:
                     key = "{"
